@@ -36,7 +36,7 @@ contract(M + "_next_quote",
 contract(M + "splitquote",
     types=dict(line="str", stopchar="str?", lower="bool"),
     returns="tuple[list[tstr],str?]",
-    locals=dict(segments="list[tstr]"),
+    locals=dict(segments="list[tstr]"), str_axioms=["case_keeps_quotes"],
     requires={"stop_is_quote": "stopchar is None or stopchar == \"'\" or stopchar == '\"'"},
     ensures={
         "lossless": "implies(not lower, ''.join(result[0]) == line)",
